@@ -960,8 +960,17 @@ class SymX:
         for k in changed:
             if k[0] == "#box":
                 v = end.heap.get(k)
-                if v is not None and v[0] == "call" and v[1] == FILLED:
-                    st.heap[k] = v
+                if v is None:
+                    continue
+                # also when only some paths through the body add something: the union of what the paths add
+                alts = [a for _g, a in v[1]] if v[0] == "phi" else [v]
+                if all(a[0] == "call" and a[1] == FILLED for a in alts):
+                    elems: list[Term] = []
+                    for a in alts:
+                        for x in a[2]:
+                            if x not in elems:
+                                elems.append(x)
+                    st.heap[k] = ("call", FILLED, tuple(elems), ())
 
     def _loop_body(self, loop: Loop, body: list[ast.stmt], make_state: Callable[[set], State]) -> set:
         """Runs the body once; if it stores into fields of objects, runs it again with those fields opaque. Returns the stored keys."""
@@ -1778,7 +1787,69 @@ class SymX:
                 return self._construct(ci.fq, args, kwargs, st, call)
         return self._apply(fterm, args, kwargs, st, call)
 
+    def _dispatch_overloads(self, callee: FuncInfo) -> "list[tuple[ast.expr, FuncInfo]] | None":
+        """(type expression, implementation) of the overloads registered on a functools.singledispatch(method) function."""
+        if not any(d.endswith("singledispatchmethod") or d.endswith("singledispatch") for d in callee.decorators):
+            return None
+        pool = [*callee.cls.extra_methods, *callee.cls.methods.values()] if callee.cls is not None else list(callee.module.all_funcs)
+        out = []
+        for f in pool:
+            if f is callee or isinstance(f.node, ast.Lambda):
+                continue
+            for d in f.node.decorator_list:
+                target = d.func if isinstance(d, ast.Call) else d
+                if isinstance(target, ast.Attribute) and target.attr == "register" and isinstance(target.value, ast.Name) and target.value.id == callee.name:
+                    ty = d.args[0] if isinstance(d, ast.Call) and d.args else None
+                    if ty is None:
+                        ps = [p_ for p_ in f.params if p_.arg not in ("self", "cls")]
+                        ty = ps[0].annotation if ps else None
+                    if ty is not None:
+                        out.append((ty, f))
+        return out or None
+
+    def _call_dispatched(self, callee: FuncInfo, overloads, call: ast.Call | None, recv: Term | None, args: tuple, kwargs: tuple, st: State) -> Term:
+        """A call of a singledispatch function: the overload registered for the class of the first argument runs (each overload is
+        executed under `isinstance(argument, its type)`, the undecorated body under the negation of all of them)."""
+        if not args:
+            res = ("call", ("fn", callee.fq), args, kwargs)
+            self._record("call", ("fn", callee.fq), recv, callee.name, args, kwargs, st, call, res)
+            return res
+        saved = st.pc
+        outs = []
+        none_of = []
+        holder = Frame(callee, None)
+        for ty, impl in overloads:
+            self.frames.append(holder)
+            try:
+                ty_term = self.eval(ty, State([{}], {}, ()))
+            finally:
+                self.frames.pop()
+            g = self.truth(("call", ("builtin", "isinstance"), (args[0], ty_term), ()))
+            none_of.append(f_not(g))
+            if g == FALSE or not satisfiable(f_and([*saved, g])):
+                continue
+            st.pc = saved + ((g,) if g != TRUE else ())
+            a_ = impl.node.args
+            if a_.vararg or a_.kwarg or impl.fq in [f.fi.fq for f in self.frames] or len(self.frames) > self.max_depth:
+                res_i: Term = ("call", ("fn", impl.fq), args, kwargs)
+                self._record("call", ("fn", impl.fq), recv, impl.name, args, kwargs, st, call, res_i)
+            else:
+                res_i, _ = self._enter(impl, call, recv, args, kwargs, st)
+            outs.append((g, res_i))
+            st.alive = True
+        g0 = f_and(none_of)
+        if g0 != FALSE and satisfiable(f_and([*saved, g0])):
+            st.pc = saved + ((g0,) if g0 != TRUE else ())
+            res0, _ = self._enter(callee, call, recv, args, kwargs, st)
+            outs.append((g0, res0))
+            st.alive = True
+        st.pc = saved
+        return phi(outs) if outs else ("unk", "no overload applies", self.fresh())
+
     def _call_repo(self, callee: FuncInfo, call: ast.Call | None, recv: Term | None, args: tuple, kwargs: tuple, st: State) -> Term:
+        overloads = self._dispatch_overloads(callee)
+        if overloads is not None and not (self.keep is not None and self.keep(callee)) and len(self.frames) <= self.max_depth and callee.fq not in [f.fi.fq for f in self.frames] and (self.policy(self.fi, callee) if self.policy is not None else default_policy(self.entry, self.fi, callee)):
+            return self._call_dispatched(callee, overloads, call, recv, args, kwargs, st)
         if _is_generator(callee) and self._may_enter(callee) and len(self.frames) <= self.max_depth and callee.fq not in [f.fi.fq for f in self.frames]:
             # executed eagerly (the consumer is not a for loop of ours): the yielded values become a guarded collection
             yielded: list[tuple[Formula, Term]] = []
